@@ -1216,6 +1216,31 @@ impl NodeMut for XmlDocument {
         Ok(XmlNode::from(value))
     }
 
+    fn replace_child(&self, new_child: XmlNode, old_child: &XmlNode) -> error::Result<XmlNode> {
+        let root = self.document_element().ok().map(|v| v.as_node());
+        let replaces_root = root.is_some_and(|v| v.id() == old_child.id())
+            && new_child.node_type() == NodeType::Element
+            && new_child.id() != old_child.id();
+        if !replaces_root {
+            self.insert_before(new_child, Some(old_child))?;
+            return self.remove_child(old_child);
+        }
+
+        // a document has one element: the old document element leaves before the new one comes
+        if Some(self.clone()) != new_child.owner_document() {
+            return Err(error::DomException::WrongDocumentErr)?;
+        }
+        let next = old_child.next_sibling();
+        let old = self.remove_child(old_child)?;
+        match self.insert_before(new_child, next.as_ref()) {
+            Ok(_) => Ok(old),
+            Err(e) => {
+                self.insert_before(old, next.as_ref())?;
+                Err(e)
+            }
+        }
+    }
+
     fn remove_child(&self, old_child: &XmlNode) -> error::Result<XmlNode> {
         if Some(self.clone()) != old_child.owner_document() {
             return Err(error::DomException::WrongDocumentErr)?;
